@@ -58,6 +58,10 @@ pub struct Walker<'a> {
     pub quiet: bool,
     pub sample: Vec<String>,
     pub construct_failed: Option<String>,
+    /// (automaton state, memory image) -> largest remaining depth already explored from there
+    pub memo: std::collections::HashMap<(usize, u64), usize>,
+    pub merged: u64,
+    pub use_memo: bool,
 }
 
 /// what the real object did in one step
@@ -112,7 +116,7 @@ pub fn known_trigger(kind: &str, flavour: &str, cap: usize, ov: &[i64], e: &Edge
 
 impl<'a> Walker<'a> {
     pub fn new(aut: &'a Automaton, cfg: Cfg) -> Self {
-        Walker { aut, cfg, stats: Stats::default(), divs: BTreeMap::new(), covered: HashSet::new(), trace: None, quiet: false, sample: vec![], construct_failed: None }
+        Walker { aut, cfg, stats: Stats::default(), divs: BTreeMap::new(), covered: HashSet::new(), trace: None, quiet: false, sample: vec![], construct_failed: None, memo: Default::default(), merged: 0, use_memo: false }
     }
 
     fn allowed(&self, state: usize, g: &Group, core_only: bool, for_walk: bool, obj: &dyn Real) -> bool {
@@ -200,7 +204,7 @@ impl<'a> Walker<'a> {
         } else if delta.bad_drops != 0 {
             problem = Some(format!("{} drops of dead or uninitialised elements", delta.bad_drops));
         }
-        if problem.is_some() || delta.net.to_vec() != e.d {
+        if problem.is_some() || (self.tokens() && delta.net.to_vec() != e.d) {
             let what = if problem.is_some() { "panic" } else { "drops" };
             self.diverge(path, Some((state, g)), "destroy", vec![json!({"d": e.d})],
                          json!({"d": delta.net, "problem": problem}), what);
@@ -297,7 +301,7 @@ impl<'a> Walker<'a> {
             if let Some(ov) = &ob.ov {
                 for n in &group.edges {
                     let c = &aut.edges[*n];
-                    if c.r == ob.r && c.v == ob.v && c.d == net && aut.states[c.to].ov == *ov {
+                    if c.r == ob.r && c.v == ob.v && (!self.tokens() || c.d == net) && aut.states[c.to].ov == *ov {
                         live.state = c.to;
                         return true;
                     }
@@ -311,7 +315,7 @@ impl<'a> Walker<'a> {
             "obs"
         } else if !group.edges.iter().any(|n| aut.edges[*n].r == ob.r && aut.edges[*n].v == ob.v) {
             "result"
-        } else if !group.edges.iter().any(|n| aut.edges[*n].r == ob.r && aut.edges[*n].v == ob.v && aut.edges[*n].d == net) {
+        } else if self.tokens() && !group.edges.iter().any(|n| aut.edges[*n].r == ob.r && aut.edges[*n].v == ob.v && aut.edges[*n].d == net) {
             "drops"
         } else {
             "state"
@@ -349,11 +353,14 @@ impl<'a> Walker<'a> {
         };
         self.take_soft(path, Some((state, g)), "relocate");
         self.record_trace(e, "ok", &[], &vec![0; tok::NV], ov.as_ref());
-        if ov.as_ref() == Some(&self.aut.states[state].ov) {
+        // the model's Relocate edge (a self-loop: PositionIndependent) names the state to be observed
+        let targets: Vec<usize> = self.aut.out[state][g].edges.iter().map(|n| self.aut.edges[*n].to).collect();
+        if let Some(t) = targets.iter().find(|t| ov.as_ref() == Some(&self.aut.states[**t].ov)) {
+            live.state = *t;
             return Some((state, g));
         }
         let what = if problem.is_some() { "obs" } else { "state" };
-        self.diverge(path, Some((state, g)), "relocate", vec![json!({"ov": self.aut.states[state].ov})],
+        self.diverge(path, Some((state, g)), "relocate", vec![json!({"ov": self.aut.states[targets[0]].ov})],
                      json!({"ov": ov, "problem": problem}), what);
         None
     }
@@ -640,7 +647,24 @@ impl<'a> Walker<'a> {
             *budget -= 1;
             if self.step(&mut l, g, path) {
                 path.push((s, g));
-                self.explore(path, l, depth_left - 1, core_only, budget);
+                let mut known = false;
+                if self.use_memo && depth_left > 1 {
+                    if let Some(fp) = l.obj.fingerprint() {
+                        let e = self.memo.entry((l.state, fp)).or_insert(0);
+                        if *e >= depth_left - 1 {
+                            known = true;
+                        } else {
+                            *e = depth_left - 1;
+                        }
+                    }
+                }
+                if known {
+                    // byte-identical object in the same model state, explored at least this deep before
+                    self.merged += 1;
+                    self.drop_check(l, path);
+                } else {
+                    self.explore(path, l, depth_left - 1, core_only, budget);
+                }
             } else {
                 self.stats.paths += 1;
                 self.discard(l.obj);
@@ -685,8 +709,13 @@ impl<'a> Walker<'a> {
             }
             best
         };
-        let (d_full, est_full) = pick(false, self);
+        let (mut d_full, est_full) = pick(false, self);
         let (d_core, est_core) = pick(true, self);
+        let mut probe = probe;
+        let memo_ok = self.use_memo && probe.obj.fingerprint().is_some();
+        if memo_ok {
+            d_full = max_depth; // merging of byte-identical objects makes the full alphabet feasible
+        }
         self.drop_check(probe, &[]);
         let mut out = json!({"constructible": true, "depth_full": d_full, "estimate_full": est_full,
                              "depth_core": d_core, "estimate_core": est_core});
@@ -696,8 +725,9 @@ impl<'a> Walker<'a> {
             }
             let before = self.stats.paths;
             crate::crash::reset();
+            self.memo.clear();
             if let Some(live) = self.fresh(&[]) {
-                let mut b = (budget as i64) * 2;
+                let mut b = if memo_ok { (budget as i64) * 40 } else { (budget as i64) * 2 };
                 let mut path = vec![];
                 self.explore(&mut path, live, depth, core, &mut b);
                 if b <= 0 {
@@ -706,6 +736,9 @@ impl<'a> Walker<'a> {
             }
             out[if core { "paths_core" } else { "paths_full" }] = json!(self.stats.paths - before);
         }
+        out["merged_by_memory_image"] = json!(self.merged);
+        out["memory_images"] = json!(self.memo.len());
+        out["exhaustive_by_merging"] = json!(memo_ok && out.get("truncated").is_none());
         out
     }
 
